@@ -283,12 +283,21 @@ def run_shared(ctx, case):
         A = mf(M1) + cola.ops.Diagonal(np.diag(M1).copy())
     else:
         A = mf(M1)
-    alg = L.Hutch(key=case["key"], max_iters=case["max_iters"], tol=0.05, rand=case["rand"])
+    use_auto = case["seed"] % 3 == 0 and kind in ("Generic", "Sum")
+    if use_auto:
+        # one caller-held Auto(...) object with a loose tolerance (the automatic rule then picks the stochastic estimator) shared
+        # by routines of different families: an eigenvalue request with the same object between two estimates
+        alg = L.Auto(tol=0.3, max_iters=case["max_iters"], key=case["key"])
+    else:
+        alg = L.Hutch(key=case["key"], max_iters=case["max_iters"], tol=0.05, rand=case["rand"])
     said = dict(alg.__dict__)
     fn = (lambda: L.diag(A, 0, alg)) if case["fn"] == "diag" else (lambda: L.trace(A, alg))
-    preds = {"kind": kind, "fn": case["fn"]}
+    preds = {"kind": kind, "fn": case["fn"], "alg": type(alg).__name__}
     before = global_digest()
     out1 = ctx.call(fn)
+    if use_auto:
+        ctx.call(lambda: L.eigmax(cola.SelfAdjoint(A) if kind == "Generic" else A, alg))  # (may refuse; what matters is what it leaves behind)
+        ctx.call(lambda: L.eig(A, 1, "LM", alg))
     out2 = ctx.call(fn)
     after = global_digest()
     if is_err(out1) or is_err(out2):
@@ -301,7 +310,7 @@ def run_shared(ctx, case):
     ctx.check("algorithm-object-says-what-the-caller-wrote", now == said, site="shared-alg-object", preds=preds,
               detail={"before": {k: repr(v) for k, v in said.items()}, "after": {k: repr(v) for k, v in now.items()}})
     ctx.check("global-state-untouched", before == after, site="shared-alg-object", preds=preds, detail=None)
-    fresh = ctx.call(lambda: L.diag(A, 0, L.Hutch(**said)) if case["fn"] == "diag" else L.trace(A, L.Hutch(**said)))
+    fresh = ctx.call(lambda: L.diag(A, 0, type(alg)(**said)) if case["fn"] == "diag" else L.trace(A, type(alg)(**said)))
     if not is_err(fresh):
         ctx.check("same-key-bit-identical", out_hash(fresh) == out_hash(out1), site="shared-alg-object", preds=dict(preds, against="fresh-object"), detail=None)
 
